@@ -1,5 +1,3 @@
-//@ attrs
-#[verifier::exec_allows_no_decreases_clause]
 //@ ret r
 //@ contract
     requires iter_wf(*old(self)),
@@ -13,6 +11,7 @@
 //@ loop 0 invariant
             invariant iter_wf(*self), self.version == old(self).version,
                 rest(*self) == rest(*old(self)),        // @moving_between_nodes_loses_nothing_and_adds_nothing
+            decreases stack_work(self.path@),
 //@ loop 0 body_start
             broadcast use ax_string_ext;
             let ghost mut before = *self;
@@ -30,5 +29,6 @@
                     && p.drop_last().last().0 == q.last().0 && p.last().0 == prem(*q.last().1)[0].0
                     && prem(*p.drop_last().last().1) == prem(*q.last().1).skip(1) && prem(*p.last().1) == children(prem(*q.last().1)[0].1) {
                     lemma_descend(q, p, self.version);
+                    work_descend(q, p);
                 }
             }
